@@ -145,7 +145,7 @@ theorem mem_filter_blk (u : List Slot) (sl : Slot) (h : sl ∈ u) : sl ∈ u.fil
 /-! ### what `Mirror` and `consistent` give, unpacked -/
 
 structure MirrorFacts (c : Cmd) (body : List UStmt) (m u : List Slot) : Prop where
-  hbody : bodyU c = some body
+  hbody : bodyN c = some body
   lm : layoutM c.marshal = some m
   lu : layoutU body = some u
   agP : agreeAll (m.filter (·.blk == .P)) (u.filter (·.blk == .P)) = true
@@ -240,22 +240,25 @@ theorem mirror_roundtrip_full {C : Codecs} {T : String → Prop} (hC : LawfulCod
       Agree (if c.isAndX then [andxField] else []) s1.env sM.env ∧
       (c.isAndX = true → (sM.env.get andxField).isSome = true) := by
     have hb := F.hbody
-    unfold bodyU at hb
+    unfold bodyN bodyU at hb
     cases ha : c.isAndX with
     | false =>
       rw [ha] at hb
-      simp only [Bool.false_eq_true, if_false, Option.some.injEq] at hb
+      simp only [Bool.false_eq_true, if_false, Option.map_some, Option.some.injEq] at hb
       subst hb
+      rw [← relationsHold_normWhole C sM.env sM.P.length c.unmarshal 0] at hrel
+      rw [← go_normWhole C c.unmarshal s0]
       exact ⟨s0, by simp [s0, axOf, ha, andxBytesOf], rfl, rfl, rfl, hrel, fun f hf => by simp at hf,
         fun h => by cases h⟩
     | true =>
       rw [ha] at hb haok hframe
-      simp only [if_true] at hb
+      simp only [if_true, Option.map_eq_some_iff] at hb
+      obtain ⟨body0, hb, rfl⟩ := hb
       obtain ⟨a, b, cc, dd, hax, hval⟩ := andxOk_decode env haok
       have h0 : s0.P = a :: b :: cc :: dd :: sM.P := by simp [s0, axOf, ha, hax]
       refine ⟨afterAndX s0 a b cc dd sM.P, rfl, rfl, rfl,
-        go_andx_prefix C a b cc dd sM.P c.unmarshal body s0 hb h0, ?_, ?_, fun _ => ?_⟩
-      · rw [← relationsHold_splitAndX C sM.env sM.P.length c.unmarshal body 0 hb]; exact hrel
+        (go_andx_prefix C a b cc dd sM.P c.unmarshal body0 s0 hb h0).trans (go_normWhole C body0 _).symm, ?_, ?_, fun _ => ?_⟩
+      · rw [relationsHold_normWhole, ← relationsHold_splitAndX C sM.env sM.P.length c.unmarshal body0 0 hb]; exact hrel
       · intro f hf
         have : f = andxField := by simpa using hf
         subst this
